@@ -80,7 +80,7 @@ func (self *BinaryConv) do(ctx context.Context, src []byte, desc *thrift.TypeDes
 	}
 
 	if desc.Type() != thrift.STRUCT {
-		return self.doRecurse(ctx, desc, out, resp, &p)
+		return self.doRecurse(ctx, desc, out, resp, &p, 0)
 	}
 
 	_, e := p.ReadStructBegin()
@@ -130,7 +130,7 @@ func (self *BinaryConv) do(ctx context.Context, src []byte, desc *thrift.TypeDes
 		restart := p.Read
 
 		if resp != nil && self.opts.EnableHttpMapping && field.HTTPMappings() != nil {
-			ok, err := self.writeHttpValue(ctx, resp, &p, field)
+			ok, err := self.writeHttpValue(ctx, resp, &p, field, 1)
 			if err != nil {
 				return unwrapError(fmt.Sprintf("mapping field %s of STRUCT %s failed", field.Name(), desc.Name()), err)
 			}
@@ -164,7 +164,7 @@ func (self *BinaryConv) do(ctx context.Context, src []byte, desc *thrift.TypeDes
 				return unwrapError(fmt.Sprintf("mapping field %s of STRUCT %s failed", field.Name(), desc.Type()), err)
 			}
 		} else {
-			err = self.doRecurse(ctx, field.Type(), out, resp, &p)
+			err = self.doRecurse(ctx, field.Type(), out, resp, &p, 1)
 			if err != nil {
 				return unwrapError(fmt.Sprintf("converting field %s of STRUCT %s failed", field.Name(), desc.Type()), err)
 			}
@@ -188,8 +188,14 @@ func (self *BinaryConv) do(ctx context.Context, src []byte, desc *thrift.TypeDes
 	return err
 }
 
-func (self *BinaryConv) doRecurse(ctx context.Context, desc *thrift.TypeDescriptor, out *[]byte, resp http.ResponseSetter, p *thrift.BinaryProtocol) (err error) {
+// depth is the number of containers (STRUCT/MAP/SET/LIST) the value is nested in
+func (self *BinaryConv) doRecurse(ctx context.Context, desc *thrift.TypeDescriptor, out *[]byte, resp http.ResponseSetter, p *thrift.BinaryProtocol, depth int) (err error) {
 	tt := desc.Type()
+	// one level of recursion per nested container: unlimited nesting overflows the stack.
+	// It is the limit of BinaryProtocol.Skip
+	if depth >= thrift.MaxSkipDepth && tt.IsComplex() {
+		return wrapError(meta.ErrStackOverflow, "", nil)
+	}
 	switch tt {
 	case thrift.BOOL:
 		v, e := p.ReadBool()
@@ -296,7 +302,7 @@ func (self *BinaryConv) doRecurse(ctx context.Context, desc *thrift.TypeDescript
 			restart := p.Read
 
 			if resp != nil && self.opts.EnableHttpMapping && field.HTTPMappings() != nil {
-				ok, err := self.writeHttpValue(ctx, resp, p, field)
+				ok, err := self.writeHttpValue(ctx, resp, p, field, depth+1)
 				if err != nil {
 					return unwrapError(fmt.Sprintf("mapping field %s of STRUCT %s failed", field.Name(), desc.Name()), err)
 				}
@@ -326,7 +332,7 @@ func (self *BinaryConv) doRecurse(ctx context.Context, desc *thrift.TypeDescript
 					return unwrapError(fmt.Sprintf("mapping field %s of STRUCT %s failed", field.Name(), desc.Type()), err)
 				}
 			} else {
-				err = self.doRecurse(ctx, field.Type(), out, nil, p)
+				err = self.doRecurse(ctx, field.Type(), out, nil, p, depth+1)
 				if err != nil {
 					return unwrapError(fmt.Sprintf("converting field %s of STRUCT %s failed", field.Name(), desc.Type()), err)
 				}
@@ -359,7 +365,7 @@ func (self *BinaryConv) doRecurse(ctx context.Context, desc *thrift.TypeDescript
 				return wrapError(meta.ErrConvert, "", err)
 			}
 			*out = json.EncodeObjectColon(*out)
-			err = self.doRecurse(ctx, desc.Elem(), out, nil, p)
+			err = self.doRecurse(ctx, desc.Elem(), out, nil, p, depth+1)
 			if err != nil {
 				return unwrapError(fmt.Sprintf("converting %dth element of MAP failed", i), err)
 			}
@@ -382,7 +388,7 @@ func (self *BinaryConv) doRecurse(ctx context.Context, desc *thrift.TypeDescript
 			if i != 0 {
 				*out = json.EncodeArrayComma(*out)
 			}
-			err = self.doRecurse(ctx, desc.Elem(), out, nil, p)
+			err = self.doRecurse(ctx, desc.Elem(), out, nil, p, depth+1)
 			if err != nil {
 				return unwrapError(fmt.Sprintf("converting %dth element of SET failed", i), err)
 			}
@@ -412,7 +418,8 @@ func (self *BinaryConv) handleUnsets(b *thrift.RequiresBitmap, desc *thrift.Stru
 			}
 			// convert it into http
 			var err error
-			ok, err = self.writeHttpValue(ctx, resp, &p, field)
+			// the value is the default one just written above, not input: its nesting starts at 0
+			ok, err = self.writeHttpValue(ctx, resp, &p, field, 0)
 			if err != nil {
 				return err
 			}
@@ -515,7 +522,7 @@ func (self *BinaryConv) buildinTypeToKey(p *thrift.BinaryProtocol, dest *thrift.
 	return nil
 }
 
-func (self *BinaryConv) writeHttpValue(ctx context.Context, resp http.ResponseSetter, p *thrift.BinaryProtocol, field *thrift.FieldDescriptor) (ok bool, err error) {
+func (self *BinaryConv) writeHttpValue(ctx context.Context, resp http.ResponseSetter, p *thrift.BinaryProtocol, field *thrift.FieldDescriptor, depth int) (ok bool, err error) {
 	var thriftVal []byte
 	var jsonVal []byte
 	var textVal []byte
@@ -565,7 +572,7 @@ func (self *BinaryConv) writeHttpValue(ctx context.Context, resp http.ResponseSe
 			// for nested type, convert it to a new JSON string
 			if jsonVal == nil {
 				tmp := make([]byte, 0, conv.DefaulHttpValueBufferSizeForJSON)
-				err := self.doRecurse(ctx, field.Type(), &tmp, resp, p)
+				err := self.doRecurse(ctx, field.Type(), &tmp, resp, p, depth)
 				if err != nil {
 					return false, unwrapError(fmt.Sprintf("mapping field %s failed, thrift pos:%d", field.Name(), p.Read), err)
 				}
